@@ -22,10 +22,18 @@ thread_local! {
   static TIMER_REQS: RefCell<Vec<u64>> = RefCell::new(vec![]);
 }
 
-const MS: u128 = 1_000_000;
+thread_local! {
+  /// nanoseconds per time unit of the case: a millisecond, or a microsecond for the `_us` forms (every delay is
+  /// then below one millisecond)
+  static UNIT: Cell<u128> = Cell::new(1_000_000);
+}
+
+fn unit() -> u128 {
+  UNIT.with(|u| u.get())
+}
 
 pub fn now_ms() -> u64 {
-  (NOW.with(|n| n.get()) / MS) as u64
+  (NOW.with(|n| n.get()) / unit()) as u64
 }
 
 struct VTimer {
@@ -44,17 +52,18 @@ impl Future for VTimer {
 }
 
 fn vtimer(d: Duration) -> BoxFuture<'static, ()> {
-  TIMER_REQS.with(|r| r.borrow_mut().push(((d.as_nanos() + MS / 2) / MS) as u64));
+  TIMER_REQS.with(|r| r.borrow_mut().push(((d.as_nanos() + unit() / 2) / unit()) as u64));
   Box::pin(VTimer { due: NOW.with(|n| n.get()) + d.as_nanos() })
 }
 
 pub fn reset_clock() {
+  UNIT.with(|u| u.set(1_000_000));
   NOW.with(|n| n.set(0));
   TIMER_REQS.with(|r| r.borrow_mut().clear());
 }
 
 pub fn advance_ms(n: u64) {
-  NOW.with(|c| c.set(c.get() + (n as u128) * MS));
+  NOW.with(|c| c.set(c.get() + (n as u128) * unit()));
 }
 
 pub fn install_timer() {
@@ -162,7 +171,7 @@ enum RawHandle {
 }
 
 fn ms(n: u64) -> Duration {
-  Duration::from_millis(n)
+  Duration::from_nanos((n as u128 * unit()) as u64)
 }
 
 fn opt_delay(s: &Sexp) -> Option<Duration> {
@@ -266,7 +275,7 @@ macro_rules! timed_runner {
                 }
               }
             }
-            "adv" => NOW.with(|n| n.set(n.get() + (la[0].int() as u128) * MS)),
+            "adv" => NOW.with(|n| n.set(n.get() + (la[0].int() as u128) * unit())),
             "unsub" => {
               if let Some(u) = sub.take() {
                 u.unsubscribe();
@@ -369,7 +378,7 @@ macro_rules! timed_runner {
                 }
               }
             }
-            "adv" => NOW.with(|n| n.set(n.get() + (la[0].int() as u128) * MS)),
+            "adv" => NOW.with(|n| n.set(n.get() + (la[0].int() as u128) * unit())),
             "unsub" => {
               if let Some(u) = sub.take() {
                 u.unsubscribe();
@@ -441,15 +450,17 @@ timed_runner!(threads, threads, SubjectThreads<Val, i64>, delay_threads, observe
 
 /// (timed FORM OP (labels ...))
 pub fn run_timed(body: &[Sexp]) -> String {
+  UNIT.with(|u| u.set(if body[0].atom().ends_with("_us") { 1_000 } else { 1_000_000 }));
   match body[0].atom() {
-    "local" => local::run(&body[1..]),
-    "threads" => threads::run(&body[1..]),
+    "local" | "local_us" => local::run(&body[1..]),
+    "threads" | "threads_us" => threads::run(&body[1..]),
     f => panic!("bad timed form {f}"),
   }
 }
 
 /// (timedchain FORM OP (pre U...) (post U...) (labels ...))
 pub fn run_timedchain(body: &[Sexp]) -> String {
+  UNIT.with(|u| u.set(1_000_000));
   match body[0].atom() {
     "local" => local::run_chain(&body[1..]),
     "threads" => threads::run_chain(&body[1..]),
@@ -460,6 +471,7 @@ pub fn run_timedchain(body: &[Sexp]) -> String {
 /// (atform OP OFFSET_SECONDS): the `_at` constructors turn an Instant into a Duration with the real
 /// Instant::now(); the observation is the first duration requested from new_timer, in whole seconds.
 pub fn run_atform(body: &[Sexp]) -> String {
+  UNIT.with(|u| u.set(1_000_000));
   install_timer();
   NOW.with(|n| n.set(0));
   TIMER_REQS.with(|r| r.borrow_mut().clear());
